@@ -37,7 +37,7 @@ package keeper
 //@ func (Keeper).AllocateTokensToSingleStaker
 //@   flag pure=Logger,Debug,Info
 //@   flag havoc=SetStakerRewards
-//@   flag noframe
+//@   flag frame_assumed
 //@   modifies state(ctx)
 //@   bumps staked by dcv(reward)
 //@   before[C17.atss.booked] SetStakerRewards requires arg_stakerAddress == stakerAddress &&
